@@ -33,6 +33,9 @@ const (
 const (
 	TaxIdentityPatternPerson  = `^([A-ZÑ\&]{4})([0-9]{6})([A-Z0-9]{3})$`
 	TaxIdentityPatternCompany = `^([A-ZÑ\&]{3})([0-9]{6})([A-Z0-9]{3})$`
+	// TaxIdentityPattern matches the codes of either type and is meant for
+	// publishing in schemas.
+	TaxIdentityPattern = `^[A-ZÑ&]{3,4}[0-9]{6}[A-Z0-9]{3}$`
 )
 
 // Tax Identity Regexp
